@@ -578,6 +578,26 @@ def builtin_typed_names_and_bare_simple_content(ctx):
             ctx.fail("factory object does not mirror the type's content model", meta, got, exp, kind="special")
     from harness.props import c07
     c07.attributes_inline_or_by_group(ctx)       # (member order of a type derived by extension from one with attributes)
+    # a local element of a named type - in a schema block that is not the first - is found under its own qualified
+    # name as well as by the dotted path (suds searches the content of the types when no global of the name exists)
+    schema2 = ('<xsd:import namespace="urn:second"/><xsd:element name="f"><xsd:complexType><xsd:sequence><xsd:element '
+               'name="o" type="s:Order" xmlns:s="urn:second"/></xsd:sequence></xsd:complexType></xsd:element>')
+    second = ('<xsd:schema xmlns:xsd="http://www.w3.org/2001/XMLSchema" targetNamespace="urn:second" '
+              'elementFormDefault="qualified"><xsd:complexType name="Order"><xsd:sequence><xsd:element name="shipTo">'
+              '<xsd:complexType><xsd:sequence><xsd:element name="street" type="xsd:string"/></xsd:sequence></xsd:complexType>'
+              '</xsd:element></xsd:sequence></xsd:complexType></xsd:schema>')
+    c2 = wsdlkit.client(wsdlkit.wsdl_doc(schema2, "f", None, extra_schemas=second), nosend=True)
+    for name, exp in (("{urn:second}shipTo", ["shipTo", ["street"]]), ("{urn:second}Order.shipTo", ["shipTo", ["street"]]),
+                      ("{urn:second}nosuch", "TypeNotFound")):
+        meta = {"stream": "local-element-by-name", "name": name}
+        ctx.case(common.canon(meta), True)
+        try:
+            o = c2.factory.create(name)
+            got = [type(o).__name__, [str(k) for k, _v in o]]
+        except Exception as e:
+            got = type(e).__name__
+        if got != exp:
+            ctx.fail("factory object does not mirror the type's content model", meta, got, exp, kind="special")
 
 
 def blank_attrs(x):
